@@ -376,7 +376,7 @@ def run(ctx):
                     continue
             box.do(stmt, p, q, tag='frag')
     # (c) garbage path strings x every statement x CHDIR histories x several drives (one nested)
-    nhist = ctx.pick(60, 1500)
+    nhist = ctx.pick(60, 1000)
     for h in range(nhist):
         box.restore(force=True)
         if h % 10 == 0:
@@ -499,7 +499,7 @@ def replay(ctx, path):
     with open(path) as f:
         doc = json.load(f)
     boxes = []
-    for v in doc['violations']:
+    for v in doc['violations'][:40]:
         d = v.get('data')
         if not isinstance(d, dict) or 'sandbox' not in d:
             continue
